@@ -518,6 +518,23 @@ func work(a lib.Args) {
 			items = append(items, genSession(rng.Fork(), n, mocks))
 			n++
 		}
+		// the audience dimension on the session endpoint (everything else about the token is good)
+		for k := range acc.AudienceVariants("http://127.0.0.1:1") {
+			r := rng.Fork()
+			it := genSession(r, n, mocks)
+			e := mocks[it.H.Cfg.AE]
+			topic := "T" + it.H.Name
+			av := acc.AudienceVariants(e.Cfg.Host)[k]
+			x := acc.Req{Route: "session", ID: topic, Label: "good",
+				Auth: acc.WithAud(acc.SessionBearer(e.Cfg.Host, it.H.T0, topic, "bk-"+it.H.Name, []string{"read", "write"}), av)}
+			x.Method, x.Target = acc.TargetFor("session", topic, nil, nil)
+			adm := acc.ScopeBearer(e.Cfg.Host, it.H.T0, []string{"relay:admin"})
+			la := acc.Req{Route: "listallow", Method: "GET", Target: "/bids/allow", Auth: adm}
+			it.H.Ops = []acc.Op{{K: "req", Req: &la}, {K: "req", Req: &x}, {K: "req", Req: &la}}
+			it.X, it.Denied, it.DenBid = 1, false, ""
+			items = append(items, it)
+			n++
+		}
 		for i := 0; i < a.Pick(45, 600); i++ {
 			items = append(items, genRelay(rng.Fork(), n, real))
 			n++
